@@ -73,6 +73,13 @@ type GenOpts struct {
 	HeaderSize     byte
 	UndefinedLocal int  // chance in 1000 per step of a data record on an undefined slot (ends the plan)
 	FixedWidthOnly bool // no narrow, no long arrays
+	// ForceFields returns field numbers a definition of message g must carry
+	// (if the profile has them).
+	ForceFields func(rng *Rand, g uint16) []byte
+	// ValueFor overrides the value of a scalar field (ok=false: default patterns).
+	ValueFor func(rng *Rand, g uint16, num byte) (v uint64, ok bool)
+	// SizeFor overrides the definition size of a field (ok=false: default).
+	SizeFor func(rng *Rand, g uint16, num byte) (size byte, ok bool)
 }
 
 // KnownMesgs returns the known message numbers, sorted.
@@ -265,6 +272,11 @@ func GenFieldData(rng *Rand, pf *ref.PField, fd ref.FieldDef, arch byte, o *GenO
 	}
 	narrow := db.Size < pb.Size
 	elem := func() uint64 {
+		if o != nil && o.ValueFor != nil && !pf.Array {
+			if v, ok := o.ValueFor(rng, pf.Mesg, pf.Num); ok {
+				return v
+			}
+		}
 		for {
 			v := scalarPattern(rng, db)
 			if narrow && v == db.Invalid {
@@ -273,7 +285,9 @@ func GenFieldData(rng *Rand, pf *ref.PField, fd ref.FieldDef, arch byte, o *GenO
 				// statement; not generated.
 				continue
 			}
-			if pf.Kind == ref.KTimeUTC && pf.Num == 253 && o != nil && o.NoTimeZero && v == 0 {
+			if pf.Kind == ref.KTimeUTC && pf.Num == 253 && o != nil && o.NoTimeZero && (v == 0 || v >= 0xFFFF0000 && v != 0xFFFFFFFF) {
+				// A reference of 0, or one that compressed offsets carry
+				// past 2^32, is a corner the statement leaves open.
 				continue
 			}
 			return v
@@ -434,6 +448,21 @@ func (g *PlanGen) Define(local byte, m uint16, knownMsg bool) {
 				}
 			}
 		}
+		if g.O.ForceFields != nil {
+			for _, num := range g.O.ForceFields(rng, m) {
+				if ff := p.Field(m, num); ff != nil {
+					found := false
+					for _, pf := range pick {
+						if pf == ff {
+							found = true
+						}
+					}
+					if !found {
+						pick = append(pick, ff)
+					}
+				}
+			}
+		}
 		if g.O.Serial {
 			if sf := serialField(m); sf != nil {
 				found := false
@@ -456,6 +485,11 @@ func (g *PlanGen) Define(local byte, m uint16, knownMsg bool) {
 				continue
 			}
 			fd := GenFieldDef(rng, pf, &g.O)
+			if g.O.SizeFor != nil {
+				if sz, ok := g.O.SizeFor(rng, m, pf.Num); ok {
+					fd.Base, fd.Size = ref.BaseTypes[pf.Base].Code, sz
+				}
+			}
 			if g.O.Serial && pf == serialField(m) {
 				fd.Base, fd.Size = ref.BaseTypes[pf.Base].Code, byte(ref.BaseTypes[pf.Base].Size)
 			}
